@@ -3,7 +3,8 @@
 The pinned tree violates C08 by itself (notes/C08.md: notifications queued
 behind an unacknowledged one are sent after their registration has ended; one
 Message object shared by all observers), which would make every mutation look
-"caught" and every control a "false alarm".  As long as /repo does not contain
+"caught" and every control a "false alarm".  (Both repairs are in /repo since
+8bfd0a2 / 6aa6151; FIX is empty then.)  As long as /repo does not contain
 the repairs, every entry therefore first applies the proposed repairs
 (notes/C08-proposed-fix.patch) and then its own change; the control
 "proposed-fix-only" shows that the repaired tree is silent."""
@@ -85,6 +86,19 @@ MUTATIONS = [
     ("C08", "unsuccessful-notification-not-final", FIX + [(IF, "                is_last = servobs._late_deregister or not response.code.is_successful()\n", "                is_last = servobs._late_deregister\n")]),
     ("C08", "is-last-ignored", FIX + [(PR, "        if is_last:\n            self._late_deregister = True\n", "        if is_last and False:\n            self._late_deregister = True\n")]),
     ("C08", "observer-set-not-shrunk", FIX + [(RS, "            self._observations.remove(serverobservation)\n", "            pass\n")]),
+    # seeded change C08-seed1: the trigger slot is re-armed only after the rendering, so a state change that
+    # arrives while render() is suspended is overwritten and forgotten
+    (
+        "C08",
+        "trigger-rearmed-after-render",
+        FIX
+        + [
+            (IF, "                response = servobs._trigger.result()\n                servobs._trigger = asyncio.get_running_loop().create_future()\n",
+             "                response = servobs._trigger.result()\n"),
+            (IF, "                # If block2 were to happen here, we'd store the full response\n                # here, and pick out block2:0.\n\n                is_last =",
+             "                servobs._trigger = asyncio.get_running_loop().create_future()\n\n                is_last ="),
+        ],
+    ),
     ("C08", "shutdown-leaves-observations", FIX + [(TM, "            (_, stop) = self.incoming_requests.pop(key)\n            # This cancels them, not sending anything.", "            (_, stop) = self.incoming_requests.pop(key)\n            stop = lambda: None\n            # This cancels them, not sending anything.")]),
 ]
 
